@@ -212,3 +212,85 @@ Theorem C15_vertical_order_example :
   ~ (sa 0 0 4 0 1 1 == 0 /\ sb 0 0 4 0 3 2 == 0) /\
   NC 0 0 4 0 1 1 3 2 /\ HV 4 0 1 1 3 2.
 Proof. exact vertical_order_example. Qed.
+
+(** on the sweep line the segment order is the order of heights (exact instance): for two
+    non-vertical, non-collinear, non-crossing segments one of whose left events precedes the
+    other in the event order, and an abscissa inside the x-extent of both at which their heights
+    differ, [compare_segments] answers [Lt] exactly when the first is lower there ([Gt]: higher).
+    So on a status line in general position the order is the strict total order of the heights
+    at the sweep position — in particular transitive — whichever pairs are compared. *)
+From GB Require Import StatusOrder.
+Theorem C15_segment_order_is_height_order :
+  forall (st : store NQ) (a b ar br : eid) (alx aly arx ary blx bly brx bry : Q),
+  e_other (getE st a) = Some ar -> e_other (getE st b) = Some br ->
+  e_left (getE st a) = true -> e_left (getE st b) = true ->
+  e_point (getE st a) = fpt alx aly -> e_point (getE st ar) = fpt arx ary ->
+  e_point (getE st b) = fpt blx bly -> e_point (getE st br) = fpt brx bry ->
+  alx < arx -> blx < brx -> a <> b ->
+  ~ (sa alx aly arx ary blx bly == 0 /\ sb alx aly arx ary brx bry == 0) ->
+  ~ (sa blx bly brx bry alx aly == 0 /\ sb blx bly brx bry arx ary == 0) ->
+  NC alx aly arx ary blx bly brx bry -> NC blx bly brx bry alx aly arx ary ->
+  is_before st a b = true \/ is_before st b a = true ->
+  forall s t : Q, 0 <= s <= 1 -> 0 <= t <= 1 ->
+  alx + s * (arx - alx) == blx + t * (brx - blx) ->
+  ~ aly + s * (ary - aly) == bly + t * (bry - bly) ->
+  (compare_segments st a b = Lt <-> aly + s * (ary - aly) < bly + t * (bry - bly)) /\
+  (compare_segments st a b = Gt <-> bly + t * (bry - bly) < aly + s * (ary - aly)).
+Proof.
+  exact (fun st a b ar br alx aly arx ary blx bly brx bry Oa Ob La Lb Pal Par Pbl Pbr Ha Hb Hab N1 N2 C1 C2 Ho s t Hs Ht Hx Hd =>
+    conj (compare_segments_by_height st a b ar br alx aly arx ary blx bly brx bry Oa Ob La Lb Pal Par Pbl Pbr Ha Hb Hab N1 N2 C1 C2 Ho s t Hs Ht Hx Hd)
+         (compare_segments_by_height_gt st a b ar br alx aly arx ary blx bly brx bry Oa Ob La Lb Pal Par Pbl Pbr Ha Hb Hab N1 N2 C1 C2 Ho s t Hs Ht Hx Hd)).
+Qed.
+
+(** ** first clause in full, exact instance: on the events of a valid input — operands with
+    finite coordinates none of whose edges overlaps another edge of the same operand
+    ([simple_edges]) — in the store the sweep returns, "is processed later than"
+    ([cmp_events = Lt]) is a STRICT TOTAL ORDER: irreflexive, total and antisymmetric (never
+    [Eq] for distinct events; the gap of [C15_only_gap] cannot occur because the two
+    sub-segments would overlap), and transitive, also through collinear partners and for right
+    events.  Store-level statements first, operand-level corollaries after. *)
+From GB Require Import LinkProofs OnEdge OnEdgeFull SameOperand EventOrderValid EventOrderTransValid.
+Theorem C15_event_order_antisymmetric_on_valid_store :
+  forall (edges : list edge) (st : store NQ),
+  einv2 edges st -> disj st -> linked NQ st ->
+  forall a b, mapped NQ st a -> mapped NQ st b -> a <> b ->
+  cmp_events st b a = CompOpp (cmp_events st a b).
+Proof. exact cmp_events_antisym_valid. Qed.
+
+Theorem C15_event_order_transitive_on_valid_store :
+  forall (edges : list edge) (st : store NQ),
+  einv2 edges st -> linked NQ st ->
+  forall a b c, mapped NQ st a -> mapped NQ st b -> mapped NQ st c ->
+  cmp_events st a b = Lt -> cmp_events st b c = Lt -> cmp_events st a c = Lt.
+Proof. exact cmp_events_trans_valid. Qed.
+
+From Coq Require Import List.
+From GB Require Import Outcome FillQueue Subdivide Coverage ExactOrder.
+Theorem C15_event_order_strict_total_on_valid_input :
+  forall cfg fuel (A B : list (polygon NQ)) op (st : store NQ) (sorted : list eid) (n : nat),
+  (forall P, In P A -> finite_poly P) -> (forall P, In P B -> finite_poly P) ->
+  simple_edges (ops_edges A B) ->
+  subdivide cfg fuel (fill_queue A B op) op = Ok (st, sorted, n) ->
+  let lt a b := cmp_events st a b = Lt in
+  ((forall a, mapped NQ st a -> ~ lt a a) /\
+   (forall a b, mapped NQ st a -> mapped NQ st b -> a <> b -> (lt a b /\ ~ lt b a) \/ (lt b a /\ ~ lt a b)) /\
+   (forall a b c, mapped NQ st a -> mapped NQ st b -> mapped NQ st c -> lt a b -> lt b c -> lt a c))%type.
+Proof. exact event_order_strict_total_on_valid_input. Qed.
+
+(** second clause, antisymmetry of the segment order, on a valid input *)
+Theorem C15_segment_order_antisymmetric_on_valid_input :
+  forall cfg fuel (A B : list (polygon NQ)) op (st : store NQ) (sorted : list eid) (n : nat),
+  (forall P, In P A -> finite_poly P) -> (forall P, In P B -> finite_poly P) ->
+  simple_edges (ops_edges A B) ->
+  subdivide cfg fuel (fill_queue A B op) op = Ok (st, sorted, n) ->
+  forall a b, mapped NQ st a -> mapped NQ st b -> a <> b ->
+  compare_segments st b a = CompOpp (compare_segments st a b) /\ compare_segments st a b <> Eq.
+Proof. exact segment_order_antisymmetric_on_valid_input. Qed.
+
+(** the hypotheses are met by the F2 witness (T-junction of two parts of one operand) *)
+From GB Require Import Cert ExactSweep.
+Theorem C15_valid_input_example :
+  (forall P, In P F2_A -> finite_poly P) /\ (forall P, In P F2_B -> finite_poly P) /\
+  simple_edges (ops_edges F2_A F2_B) /\
+  (match subdivide release 3000 (fill_queue F2_A F2_B Union) Union with Ok (_, sorted, _) => Nat.ltb 0 (length sorted) | _ => false end) = true.
+Proof. exact valid_input_example. Qed.
